@@ -133,6 +133,14 @@ inline void Epoch::unlock() noexcept {
 }
 
 inline void Epoch::unregister_accessor(size_t index) noexcept {
+  // An Accessor released inside its critical region must not keep holding the
+  // low water mark back (nor hand a half-locked slot to the next owner of the
+  // id): leave the region before the id can be reused.
+  auto& slot = _slots[index];
+  if (slot.lock_times != 0) {
+    slot.lock_times = 0;
+    slot.version.store(UINT64_MAX, ::std::memory_order_release);
+  }
   _id_allocator.deallocate(index);
 }
 
